@@ -163,8 +163,26 @@ def a10(repo: Repo) -> RuleResult:
                     iters.append(n.args[0])
             elif isinstance(n, ast.Call) and isinstance(n.func, ast.Attribute) and n.func.attr == "join" and n.args:
                 iters.append(n.args[0])
+            def _setlike(x: ast.AST) -> bool:
+                if isinstance(x, (ast.Set, ast.SetComp)):
+                    return True
+                if isinstance(x, ast.Call) and isinstance(x.func, ast.Name) and x.func.id in ("set", "frozenset"):
+                    return True
+                if isinstance(x, ast.BinOp) and isinstance(x.op, (ast.BitOr, ast.BitAnd, ast.Sub, ast.BitXor)) and (_setlike(x.left) or _setlike(x.right)):
+                    return True
+                if isinstance(x, ast.Call) and isinstance(x.func, ast.Attribute) and x.func.attr in ("union", "intersection", "difference", "symmetric_difference", "copy") and _setlike(x.func.value):
+                    return True
+                return False
+
             for it in iters:
-                is_set = isinstance(it, (ast.Set, ast.SetComp)) or (isinstance(it, ast.Call) and isinstance(it.func, ast.Name) and it.func.id in ("set", "frozenset"))
+                is_set = _setlike(it)
+                if not is_set and isinstance(it, ast.Name):
+                    # a local bound to a set anywhere in this function
+                    for a_ in ast.walk(fi.node):
+                        if isinstance(a_, (ast.Assign, ast.AnnAssign)) and a_.value is not None:
+                            tgs = a_.targets if isinstance(a_, ast.Assign) else [a_.target]
+                            if any(isinstance(t_, ast.Name) and t_.id == it.id for t_ in tgs) and (_setlike(a_.value) or (isinstance(a_.value, ast.Name) and False)):
+                                is_set = True
                 if not is_set:
                     if ty is None:
                         ty = Typer(m, fi, fi.cls)
